@@ -1,14 +1,15 @@
 PROP = {
     "id": "C52",
     "theorem_modules": ["Verif.Properties.C52"],
-    "min_theorems": 11,
+    "min_theorems": 12,
     "required_theorems": [
         "Verif.Properties.C52.binary",
         "Verif.Properties.C52.args",
         "Verif.Properties.C52.array_dict_literals",
         "Verif.Properties.C52.and_",
         "Verif.Properties.C52.or_",
-        "Verif.Properties.C52.nilcoalesce",
+        "Verif.Properties.C52.nilcoalesce_partial",
+        "Verif.Properties.C52.nilcoalesce_witness",
         "Verif.Properties.C52.conditional",
         "Verif.Properties.C52.optional_chain",
         "Verif.Properties.C52.assign_swap",
